@@ -18,13 +18,25 @@ def discover(chk):
     cls = prog.cls(FACTORY)
     init = prog.lookup_method(cls, "__init__")
     active = released = None
+    weak_active = None
     for st in ast.walk(init.node):
         if isinstance(st, ast.Assign) and isinstance(st.targets[0], ast.Attribute) and util.dotted(st.targets[0].value) == "self":
             txt = util.unparse(st.value)
-            if txt.startswith("set(") and "children" in txt:
+            if (txt.startswith("set(") or txt.startswith("{*")) and "children" in txt:
                 active = st.targets[0].attr
+            elif "WeakSet(" in txt and "children" in txt:
+                active, weak_active = st.targets[0].attr, st
             elif "WeakSet" in txt or txt in ("set()", "[]"):
                 released = st.targets[0].attr
+    if weak_active is not None:
+        chk.bad("O15.1", init.qual, "the active children are kept in a weak set (%s): the pool no longer keeps its own children alive, a child nobody else references vanishes and every adjustment spawns for the same demand again" % util.unparse(weak_active.value), node=weak_active, stmt="active-set-weak")
+    if released is None:
+        # a released set that lives on the class is shared by every pool of the process
+        getter = prog.pick(cls.methods.get("children", []), "getter")
+        for a, v in cls.class_attrs.items():
+            if v is not None and ("WeakSet" in util.unparse(v) or util.unparse(v) in ("set()", "[]")) and getter is not None and any(isinstance(x, ast.Attribute) and x.attr == a for x in ast.walk(getter.node)):
+                chk.bad("O15.1", cls.qual, "the released-children set self.%s is created once on the CLASS and never per instance: a child released by one pool counts in the supply, utilisation, allocation and children of every other pool" % a, node=v, stmt="released-set-shared")
+                released = a
     if active is None or released is None:
         raise Undecided("active / released child sets not found in FactoryPool.__init__", init.node)
     roles = {}
@@ -36,6 +48,8 @@ def discover(chk):
         seen = seen if seen is not None else set()
         out = set()
         for n in ast.walk(f.node):
+            if isinstance(n, ast.Call) and isinstance(n.func, ast.Name):
+                out.add(n.func.id)
             if isinstance(n, ast.Call) and isinstance(n.func, ast.Attribute) and util.dotted(n.func.value) == "self":
                 out.add(n.func.attr)
                 g = prog.lookup_method(cls, n.func.attr)
@@ -47,12 +61,23 @@ def discover(chk):
     for f in meths:
         if any(isinstance(n, ast.Call) and isinstance(n.func, ast.Attribute) and n.func.attr == "add" and util.dotted(n.func.value) == "self." + released for n in ast.walk(f.node)):
             roles["release"] = f
+    if "release" not in roles:
+        # a module-level function that is handed the two sets:  _release(child, self._hatchery, self._mortuary)
+        for f in meths:
+            for n in ast.walk(f.node):
+                if isinstance(n, ast.Call) and isinstance(n.func, ast.Name) and any(util.dotted(a) == "self." + released for a in n.args):
+                    g = prog.functions.get(prog.resolve(f.module, n.func) or "")
+                    if g is not None and g.cls is None:
+                        idx = [i for i, a in enumerate(n.args) if util.dotted(a) == "self." + released][0]
+                        if idx < len(g.params()) and any(isinstance(c, ast.Call) and isinstance(c.func, ast.Attribute) and c.func.attr == "add" and isinstance(c.func.value, ast.Name) and c.func.value.id == g.params()[idx] for c in ast.walk(g.node)):
+                            roles["release"] = g
     rel = roles.get("release")
     if rel is not None:
         for f in meths:
             if f is rel:
                 continue
             direct = {n.func.attr for n in ast.walk(f.node) if isinstance(n, ast.Call) and isinstance(n.func, ast.Attribute) and util.dotted(n.func.value) == "self"}
+            direct |= {n.func.id for n in ast.walk(f.node) if isinstance(n, ast.Call) and isinstance(n.func, ast.Name)}
             if rel.name in direct and not f.params() and any(isinstance(n, ast.For) for n in ast.walk(f.node)):
                 roles["reap"] = f
         if "reap" not in roles:
@@ -77,6 +102,26 @@ def discover(chk):
         if need not in roles:
             raise Undecided("the %s step of FactoryPool was not found" % need, cls.node)
     return cls, active, released, roles
+
+
+def rel_env(prog, cls, rel, active, released):
+    """for a module-level release function: its parameters read as the caller's terms (from the call sites)"""
+    if rel.cls is not None:
+        return None
+    env = {}
+    for fis in cls.methods.values():
+        for f in fis:
+            for n in ast.walk(f.node):
+                if isinstance(n, ast.Call) and isinstance(n.func, ast.Name) and prog.resolve(f.module, n.func) == rel.qual:
+                    for pname, a in zip(rel.params(), n.args):
+                        d = util.dotted(a) or ""
+                        if d in ("self." + active, "self." + released):
+                            env[("sym", pname)] = ("attr", SELF, d.split(".")[1])
+    return env
+
+
+def is_rel_call(ct, rel):
+    return ct[0] == "call" and (ct[1] == ("attr", SELF, rel.name) if rel.cls is not None else ct[1] == ("glob", rel.qual))
 
 
 def helper_inline(cls, roles):
@@ -155,6 +200,19 @@ def ownership(chk, cls, active, released, roles):
                         stmt="%s.%s in %s" % (which, what, role),
                     )
                     ok = False
+    rel = roles["release"]
+    if rel.cls is None:
+        # a module-level release function mutates the sets through its parameters
+        env = rel_env(prog, cls, rel, active, released) or {}
+        pmap = {k[1]: v[2] for k, v in env.items()}
+        for node in ast.walk(rel.node):
+            if isinstance(node, ast.Call) and isinstance(node.func, ast.Attribute) and node.func.attr in MUTATORS and isinstance(node.func.value, ast.Name) and node.func.value.id in pmap:
+                which, what = pmap[node.func.value.id], node.func.attr
+                n += 1
+                chk.count()
+                if not ((which == active and what in ("discard", "remove")) or (which == released and what == "add")):
+                    chk.bad(rule, rel.qual, "%s.%s in the release step: the %s child set may only %s" % (which, what, "active" if which == active else "released", "shrink in the release step" if which == active else "grow in the release step"), node=node, stmt="%s.%s in release" % (which, what))
+                    ok = False
     chk.floor(rule, n, 5)
     if ok:
         chk.ok(rule, cls.qual, "active set: initial children + factory results (grow), removed only in release; released set: grows only in release; nothing moves back (%d writer sites)" % n, node=cls.node)
@@ -165,7 +223,8 @@ def release_atomic(chk, cls, active, released, roles):
     rule = "O15.2"
     fi = roles["release"]
     child = ("sym", fi.params()[0])
-    outs = Interp(prog, fi, inline=helper_inline(cls, roles)).run()
+    env = rel_env(prog, cls, fi, active, released)
+    outs = Interp(prog, fi, inline=helper_inline(cls, roles)).run(env=env) if env else Interp(prog, fi, inline=helper_inline(cls, roles)).run()
     chk.count(len(outs))
     ok = True
     for o in outs:
@@ -204,7 +263,10 @@ def reap(chk, cls, active, released, roles):
         for o in outs:
             if o.kind == "cut" or o.kind == "raise":
                 continue
-            own = [e[1][1][2] for e in o.path.events if e[0] == "call" and e[1][1][0] == "attr" and e[1][1][1] == SELF]
+            own = [e[1][1][2] for e in o.path.events if e[0] == "call" and e[1][1][0] == "attr" and e[1][1][1] == SELF] if True else []
+            own_last = [e[1] for e in o.path.events if e[0] == "call" and ((e[1][1][0] == "attr" and e[1][1][1] == SELF) or is_rel_call(e[1], rel_fi))]
+            if own_last and is_rel_call(own_last[-1], rel_fi) and rel_fi.cls is None:
+                own = own + ["<release>"]
             if not own or own[-1] != reap_fi.name:
                 chk.bad(rule, fi.qual, "the %s step can finish without reaping children that have no demand left (last own calls: %s)" % (step, own[-2:]), node=fi.node, stmt="%s-no-reap" % step)
                 ok = False
@@ -235,7 +297,7 @@ def reap(chk, cls, active, released, roles):
             continue
         child = item[0]
         s = it.get_rel(("attr", child, "demand"), ZERO, o.path)
-        released_now = any(e[0] == "call" and e[1][1] == ("attr", SELF, rel_fi.name) and list(e[1][2]) == [child] for e in o.path.events)
+        released_now = any(e[0] == "call" and is_rel_call(e[1], rel_fi) and list(e[1][2])[:1] == [child] for e in o.path.events)
         for r in s:
             seen.add((r, released_now))
     want = {("<", True), ("=", True), (">", False)}
@@ -355,13 +417,13 @@ def guards(chk, cls, active, released, roles):
         cd = ("attr", child, "demand")
         s0 = it.get_rel(excess0[2], ZERO, o.path)
         s1 = it.get_rel(cd, excess0[2], o.path)
-        released_now = [e for e in o.path.events if e[0] == "call" and e[1][1] == ("attr", SELF, rel_name)]
+        released_now = [e for e in o.path.events if e[0] == "call" and is_rel_call(e[1], roles["release"])]
         broke = any(e[0] == "loop-break" for e in o.path.events)
         for a in s0:
             for b in s1:
                 seen.add((a, b, "break" if broke else ("release" if released_now else "keep")))
         if released_now:
-            if len(released_now) != 1 or list(released_now[0][1][2]) != [child]:
+            if len(released_now) != 1 or list(released_now[0][1][2])[:1] != [child]:
                 chk.bad(rule, fi.qual, "one shrink iteration releases %s" % [show(a) for e in released_now for a in e[1][2]], node=fi.node, stmt="release-arg")
                 ok = False
             augs = [e for e in o.path.events if e[0] == "aug" and e[1] == evar]
